@@ -11,7 +11,7 @@ TRUSTED_COMMON = [
 PROPS = {
     'C13': dict(
         tests=['TestC13'],
-        monitor_tags={1310, 1311, 1312, 1313},
+        monitor_tags={1310, 1311, 1312, 1313, 1314},
         panic_is_violation={1301, 1302, 1304, 1306, 1305},
         rule='every UDP payload length 0..1600 (thorough 0..4000) plus random lengths up to 65507 with byte patterns that make '
              'one\'s-complement sums cross 0xFFFF; oversize payloads (length-field wrap); all protocols; decoders on truncations at every '
@@ -256,6 +256,9 @@ PROPS['C15']['spec_equal_tags'] = {1503}
 PROPS['C16']['tests'] = PROPS['C16']['tests'] + ['TestC15']
 PROPS['C16']['direct_files'] = ['c16timing']
 # C14: which verifier each state is wired to is observed on the client scripts of C15 (foreign-server ACKs)
+# catch_reply / catch_loop are characterised completely by C14_accept_iff, C14_nack_iff, C14_ignore_otherwise and C14_loop (verdict AND the
+# message and options handed on): a packet or packet sequence on which the implementation differs from them is a failing input
+PROPS['C14']['spec_equal_tags'] = {1402, 1403}
 PROPS['C14']['tests'] = PROPS['C14']['tests'] + ['TestC15']
 PROPS['C14']['direct_files'] = ['c14wiring']
 PROPS['C14']['case_files'] = ['c14']
